@@ -6,6 +6,7 @@ open Proto
 `(proc L (c c …) (c …) …)`  → `(ok (c …) (c …) …)` | `(err internal)` | `(err fuel)`
 `(logical (c …) (c …) …)`   → `((s c …) (c c …) (d k (c …) (c …)) …)`
 `(safe L (c …) …)`        → 0/1 (side condition `SafeFile`)
+`(breakable L (c …) …)`   → 0/1 (every line satisfies `Breakable`)
 `(type (c …))`              → line type number
 `(long L (c …) …)`          → 0/1 -/
 
@@ -25,6 +26,7 @@ def handle (s : Sexp) : String :=
     | .error .fuel => "(err fuel)"
   | .atom "logical" :: ls => showList showItem (C18.logical (ls.map Sexp.natList))
   | .atom "safe" :: l :: ls => if C18.SafeFile (l.nat?.getD 0) C18.St.init (ls.map Sexp.natList) then "1" else "0"
+  | .atom "breakable" :: l :: ls => if (ls.map Sexp.natList).all (C18.Breakable (l.nat?.getD 0)) then "1" else "0"
   | .atom "type" :: l :: _ => toString (C18.lineType l.natList)
   | .atom "long" :: l :: ls => if C18.longLines (l.nat?.getD 0) (ls.map Sexp.natList) then "1" else "0"
   | _ => "bad-request"
